@@ -121,19 +121,68 @@ def run(slot, n_slots, sample, seed):
         shutil.rmtree(f"/tmp/pv-shadow-{tag}", ignore_errors=True)
         shutil.rmtree(tmpd, ignore_errors=True)
 
+# Triage of the mutants that survived the suite and were not caught by the checks opmut ran against them
+# (key: "file:line old -> new"). Classes: EQUIVALENT (no observable difference), STRUCTURE (another but valid on-disk
+# or in-memory structure, every answer the same), PERFORMANCE/TIMING (more or less work, a boundary millisecond),
+# OUTSIDE (observable, but not something the 17 properties speak about), DEAD (code never executed in production),
+# HOOK (inside a cfg(feature = "verif") hook), REMAPPED (opmut ran the wrong checks: caught by the check named).
+TRIAGE = {
+    "src/record/partially_serialized.rs:55": "OUTSIDE: which error kind a failed append is reported as (FileUnavailable or the raw io::Error); every property only asks that it is an error",
+    "src/storage/core.rs:1389": "EQUIVALENT for C12: a sync is requested when the dirty bytes reach the limit instead of exceeding it (syncing earlier is allowed)",
+    "src/filter/range.rs:127": "EQUIVALENT: min = key when key == min", "src/filter/range.rs:129": "EQUIVALENT: max = key when key == max",
+    "src/filter/range.rs:142": "EQUIVALENT: assigning an equal bound", "src/filter/range.rs:145": "EQUIVALENT: assigning an equal bound",
+    "src/tools/utils.rs:102": "OUTSIDE: on which record counts the recovery tool re-reads what it wrote (a self-check of the tool; C16 judges the output itself)",
+    "src/tools/utils.rs:76": "REMAPPED: caught by C16 once a panic raised in pearl's sources outside a monitored call is reported (it aborted the shards: remainder by zero); see runner.rs",
+    "src/filter/bloom.rs:220": "DEAD: bits_count_via_iterations is unused (#[allow(dead_code)])", "src/filter/bloom.rs:222": "DEAD: bits_count_via_iterations is unused",
+    "src/blob/index/bptree/core.rs:146": "EQUIVALENT: reversing a one-element list", "src/blob/index/bptree/core.rs:338": "EQUIVALENT: a one-element list handled by the general branch",
+    "src/error.rs:218": "EQUIVALENT (unreachable): see mutant c06_unexpected_eof_classification_inverted",
+    "src/storage/core.rs:496": "EQUIVALENT: re-sorting the already ordered list of a single blob", "src/storage/core.rs:474": "EQUIVALENT: an empty entry list counted as an affected blob only triggers that re-sort", "src/storage/core.rs:487": "EQUIVALENT: as core.rs:474",
+    "src/storage/core.rs:473": "EQUIVALENT: the flag only decides whether the (idempotent) cut after the first marker runs; with && it is never set and the list is already cut per blob... checked by C02 on every step",
+    "src/filter/hierarchical.rs:303": "STRUCTURE: groups of group_size + 1 children; no filter answer changes", "src/filter/hierarchical.rs:280": "STRUCTURE: as hierarchical.rs:303",
+    "src/filter/hierarchical.rs:168": "PERFORMANCE: one more filter off-loaded", "src/filter/hierarchical.rs:189": "PERFORMANCE: one more filter off-loaded", "src/filter/hierarchical.rs:173": "PERFORMANCE: off-loading stops one level earlier",
+    "src/record/record.rs:231": "DEAD: Header::has_key is never called", "src/record/record.rs:126": "EQUIVALENT: one byte more or less goes through the single buffer",
+    "src/storage/builder.rs:116": "OUTSIDE: Builder accepts max_data_in_blob = 0", "src/storage/builder.rs:104": "OUTSIDE: Builder accepts max_blob_size = 0", "src/storage/builder.rs:60": "OUTSIDE: boundary of the builder's argument validation",
+    "src/filter/bloom.rs:266": "EQUIVALENT in use: differs only when a filter is merged with itself", "src/filter/bloom.rs:270": "EQUIVALENT in use: as bloom.rs:266",
+    "src/filter/bloom.rs:174": "OUTSIDE (sizing only): a filter is built with the first configuration seen in the process instead of its own; it is self-consistent, saved with the configuration it really has, and gives no false negative",
+    "src/blob/index/bptree/serializer.rs:214": "STRUCTURE: fan-out smaller by one", "src/blob/index/bptree/serializer.rs:155": "STRUCTURE: another grouping of the last nodes of a layer", "src/blob/index/bptree/serializer.rs:109": "STRUCTURE: padding decision at an exact fit",
+    "src/blob/index/bptree/core.rs:107": "EQUIVALENT in use: the caller never asks for the byte at index == meta_size", "src/blob/index/bptree/core.rs:362": "EQUIVALENT: loop bound at an exact fit reads the same headers",
+    "src/storage/core.rs:384": "TIMING: rotation debounce boundary (one millisecond)", "src/storage/observer_worker.rs:233": "TIMING: deferred dump fires at min-since-last AND/OR max-since-first; always within the maximum", "src/storage/observer_worker.rs:126": "EQUIVALENT: replacing a deadline by an equal one",
+    "src/storage/core.rs:375": "EQUIVALENT for C13: rotation when the size exceeds instead of reaches the limit (the property says 'beyond')", "src/storage/observer_worker.rs:328": "EQUIVALENT for C13: as core.rs:375", "src/storage/observer_worker.rs:316": "EQUIVALENT for C13: as core.rs:375",
+    "src/io/unix/sync.rs:302": "EQUIVALENT: an operation of exactly the threshold size runs in the background instead of in place", "src/io/unix/sync.rs:89": "EQUIVALENT: zero-length appends tracked as in flight",
+    "src/blob/index/tools.rs:18": "HOOK: inside the verif tap call", "src/storage/observer_worker.rs:194": "HOOK: verif_barrier",
+    "src/storage/core.rs:1482": "TIMING: dump time-slice check for the first blob of a slice", "src/storage/core.rs:1385": "EQUIVALENT for C12: a sync is also requested while one is in progress (the worker ignores it)",
+    "src/storage/core.rs:1107": "PERFORMANCE: a deferred dump is requested after every delete", "src/storage/core.rs:742": "EQUIVALENT: fetch_max with a smaller value is a no-op here (the counter was already raised from the blob list)",
+    "src/storage/core.rs:1075": "PERFORMANCE: the delete takes the exclusive lock where the shared one suffices",
+    "src/storage/read_result.rs:124": "DEAD: ReadResult<BlobRecordTimestamp>::latest is never called",
+    "src/filter/ahash/operations.rs:34": "EQUIVALENT: keys are never empty", "src/filter/ahash/fallback_hash.rs:167": "EQUIVALENT: for 16 bytes both branches hash the same 16 bytes",
+    "src/filter/ahash/operations.rs:25": "REMAPPED: caught by C17 (bloom vectors; mutant c17_hash_two_byte_keys)", "src/filter/ahash/operations.rs:26": "REMAPPED: caught by C17 (corpus with 4-byte keys, bloom vectors)",
+    "src/filter/ahash/fallback_hash.rs:166": "REMAPPED: caught by C17 (8-byte keys)", "src/filter/ahash/fallback_hash.rs:170": "REMAPPED: caught by C17 (keys longer than 16 bytes)",
+    "src/tools/blob_reader.rs:110": "EQUIVALENT: is_eof at position == len is decided by the read that follows", "src/blob/index/header.rs:113": "EQUIVALENT: both branches leave a zeroed 32-byte hash",
+    "src/blob/index/core.rs:393": "EQUIVALENT: a one-element list", "src/blob/index/core.rs:382": "DEAD: IndexStruct::get_all is never called", "src/blob/index/core.rs:352": "EQUIVALENT: linear or binary insertion at exactly four versions",
+    "src/filter/atomic_bitvec.rs:112": "EQUIVALENT in use: the previous bit value returned by set() is ignored by every caller",
+}
+
 def report():
     recs = []
     for f in sorted(os.listdir("/tmp")):
         if f.startswith("opmut-") and f.endswith(".jsonl"):
             recs += [json.loads(l) for l in open(os.path.join("/tmp", f)) if l.strip()]
-    json.dump(recs, open(OUT, "w"), indent=1)
     n = len(recs); killed = sum(r["suite"] == "killed" for r in recs); bf = sum(r["suite"] == "build-failed" for r in recs)
     surv = [r for r in recs if r["suite"] == "survived"]
     caught = [r for r in surv if "CAUGHT" in r.get("checks", {}).values()]
     print(f"{n} mutants: {bf} did not build, {killed} killed by the suite, {len(surv)} survived the suite; of those {len(caught)} caught by a check, {len(surv) - len(caught)} not")
+    untriaged = 0
     for r in surv:
         if r not in caught:
-            print(f"  NOT CAUGHT {r['file']}:{r['line']} `{r['old'].strip()}` -> `{r['new'].strip()}`  {r['text'][:110]}  {r.get('checks')}")
+            t = TRIAGE.get(f"{r['file']}:{r['line']}")
+            r["triage"] = t or "UNTRIAGED"
+            if not t:
+                untriaged += 1
+                print(f"  UNTRIAGED {r['file']}:{r['line']} `{r['old'].strip()}` -> `{r['new'].strip()}`  {r['text'][:110]}  {r.get('checks')}")
+    from collections import Counter
+    cls = Counter((r.get("triage") or "").split(":")[0].split(" ")[0] for r in surv if r not in caught)
+    print("triage of the rest:", dict(cls), "untriaged:", untriaged)
+    json.dump(recs, open(OUT, "w"), indent=1)
 
 if __name__ == "__main__":
     if sys.argv[1] == "enumerate":
